@@ -85,6 +85,43 @@ theorem child_255_never_set_or_req (v : Ver) (l : Str) (m : Msg) (h : decode v l
   obtain ⟨_, _, _, _, _, _, _, _, _, _, _, hwf⟩ := (decode_ok_iff v l m).mp h
   exact hwf.2.2.2.2.2.2.2.2 hc
 
+/-! ### The decoder has no memory
+
+What a line decodes to is a function of the line's text: not of the protocol version, and not of anything that
+happened before - other lines decoded, or whatever the application did with the messages it got for them (in the
+model a `Msg` is a value; the implementation's `Message` is an object with writable attributes, and the correspondence
+run's returned-object histories, harness/props/codec_aliasing.py, assign to, send and dump earlier results between
+decodes of equal and similar lines and compare every decode with `decode`). -/
+
+/-- **One line spells one message**: the acceptance condition determines the decoded values. -/
+theorem accepts_functional (l : Str) (m m' : Msg) (h : Accepts l m) (h' : Accepts l m') : m = m' := by
+  have a := (decode_ok_iff .v14 l m).mpr h
+  have b := (decode_ok_iff .v14 l m').mpr h'
+  rw [a] at b
+  exact Option.some.inj b
+
+/-- **Equal lines decode equally under every protocol version** (the accept set and the decoded values do not
+mention the version: two schemas or gateways under different versions agree on every line). -/
+theorem decode_version_free (v v' : Ver) (l : Str) : decode v l = decode v' l := by
+  cases h : decode v l with
+  | some m => exact ((decode_ok_iff v' l m).mpr ((decode_ok_iff v l m).mp h)).symm
+  | none =>
+    cases h' : decode v' l with
+    | none => rfl
+    | some m' =>
+      have := (decode_ok_iff v l m').mpr ((decode_ok_iff v' l m').mp h')
+      rw [h] at this
+      exact absurd this (by simp)
+
+/-- **No history**: the result for the last line of a stream is the result for that line alone - whatever lines
+were decoded before it, under whatever versions, and in any other stream that ends with the same text. -/
+theorem decode_history_free (before before' : List (Ver × Str)) (v v' : Ver) (l : Str) :
+    ((before ++ [(v, l)]).map fun p => decode p.1 p.2).getLast? =
+      ((before' ++ [(v', l)]).map fun p => decode p.1 p.2).getLast? := by
+  simp only [List.map_append, List.map_cons, List.map_nil, List.getLast?_append, List.getLast?_singleton,
+    Option.some_or]
+  rw [decode_version_free v v' l]
+
 /-! Non-vacuity and the boundary cases of the statement, evaluated on the model. -/
 
 example : decode .v14 "1;5;3;0;3;\n".toList = some ⟨1, 5, 3, 0, 3, []⟩ := by decide
